@@ -1,7 +1,7 @@
 (* Correspondence check at node level (C01, C06, C08, C10, C17): the assembled node function Node.run_full, with the room
    stage instantiated with Flocq binary32, against run_bab_node of caobab.rs on generated instances and nodes. *)
 From Coq Require Import List ZArith Bool Arith NArith.
-Require Import HP1 Cao1 Cao3 Score1 Rooms F32 Node Spec CorrSel.
+Require Import HP1 Cao1 Cao3 Score1 Rooms F32 Node Spec CorrSel RoomSites.
 Import ListNotations.
 Open Scope nat_scope.
 
@@ -46,7 +46,7 @@ Definition check_node (c : node_case) : N :=
   let es := esize32 params in let sf := shrinkf32 params in
   let model := run_full courses parts es sf rooms nd in
   let agree := res_agree model ires in
-  let cls := Spec.validb courses parts && node_wfb courses nd in
+  let cls := Spec.validb courses parts && node_wfb courses nd && float_saneb courses es sf rooms in
   let '(hard, score_ok, housed, hardc) :=
     match ires with
     | PFeas a s =>
